@@ -306,7 +306,11 @@ impl<'s> Scheduler<'s> {
                         let current_thread = nix::sys::pthread::pthread_self();
                     }
                 }
+                #[cfg(feature = "verif")]
+                crate::verif::point("sched:before_record");
                 _ = RUNNING_COROUTINES.insert(co_id, current_thread);
+                #[cfg(feature = "verif")]
+                crate::verif::point("sched:recorded");
                 match coroutine.resume().inspect(|_| {
                     _ = RUNNING_COROUTINES.remove(&co_id);
                 })? {
